@@ -5,6 +5,10 @@ CONSTANTS
   Fams = {1}
   AllowDeps = FALSE
   D = 6
+  Ste = "identity"
+  TVals = {0}
+  KFull = 1
+  KMax = 1
 INVARIANT InvMixNonNeg
 INVARIANT InvMixGradSumZero
 INVARIANT InvMixRaiseIffGrad
